@@ -269,6 +269,9 @@ def text_family(ck, rnd, n):
             if rnd.random() < 0.5:
                 body = {"init": [1, 1], "rules": [],
                         "ctl": [{"kind": "clock", "thr": row["sec"], "rep": 0, "link": 1, "val": 0, "prio": 3, "text": text}]}
+                if rnd.random() < 0.5:
+                    body["ctl"][0]["fd"] = rnd.choice([1, 1, 2])       # first_day: no firing before that clock day
+                    ck.count("first_day_scenarios")
             else:
                 body = {"init": [1, 1], "ctl": [],
                         "rules": [{"cond": dict(atom("clock", rnd.choice([">=", "<"]), row["sec"]), text=text),
